@@ -100,6 +100,7 @@ func cmdDebug(args []string) {
 	timeout := fs.Int("t", 10, "solver timeout")
 	prop := fs.String("property", "", "only obligations of this property")
 	dumpDir := fs.String("dump", "", "write SMT of failing obligations to this directory")
+	coverFlag := fs.Bool("cover", false, "vacuity check: every return must not be provably unreachable")
 	fs.Parse(args)
 	concProp = *prop
 	P := mustLoad()
@@ -132,6 +133,13 @@ func cmdDebug(args []string) {
 			}
 			jobs = append(jobs, job{e, o})
 		}
+		if *coverFlag {
+			for i, c := range e.covers {
+				// "goal false under reach" is unsat exactly when the return is provably unreachable
+				o := &Obl{Name: fmt.Sprintf("%s/cover/return#%d", e.key, i), Class: "cover", Anchor: "return", Prefix: c.prefix, Reach: c.reach, Goal: TFalse, Desc: "vacuity: return must be reachable", Pos: c.pos, Func: e.key, Blk: c.blk}
+				jobs = append(jobs, job{e, o})
+			}
+		}
 	}
 	for _, lm := range P.Spec.Lemmas {
 		for _, pat := range fs.Args() {
@@ -155,7 +163,7 @@ func cmdDebug(args []string) {
 				fmt.Println(v.SMT)
 				fmt.Println(v.Raw)
 			}
-			if v.Status != "discharged" && *dumpDir != "" {
+			if (v.Status != "discharged" || v.Obl.Class == "cover") && *dumpDir != "" {
 				os.MkdirAll(*dumpDir, 0o755)
 				os.WriteFile(*dumpDir+"/"+sanitize(v.Obl.Name)+".smt2", []byte(v.SMT), 0o644)
 			}
